@@ -102,22 +102,28 @@ def _check_pt(case, exact):
 def _check_tg(case, exact):
     tiers, lo, hi, s0, d = case
     tg = Textgrid(lo, hi)
-    for kind, name, entries in tiers:
-        tg.addTier((IT if kind == "I" else PT)(name, list(entries), lo, hi))
+    spans = []
+    for t in tiers:
+        kind, name, entries = t[:3]
+        tlo, thi = t[3] if len(t) > 3 else (lo, hi)  # a tier's own span may be narrower than the textgrid's
+        spans.append((tlo, thi))
+        tg.addTier((IT if kind == "I" else PT)(name, list(entries), tlo, thi))
+    tiers = tuple(t[:3] for t in tiers)
+    uniform = all(sp == (lo, hi) for sp in spans)
     viols, summ, n = [], [], 0
     for mode in MODES:
         n += 1
-        tag = f"Textgrid.insertSpace({s0!r},{d!r},{mode!r})"
+        tag = f"Textgrid.insertSpace({s0!r},{d!r},{mode!r}) tier spans {spans}"
         st, r, _ = call(tg.insertSpace, s0, d, mode)
         exps = []
         rejected = False
-        for kind, name, entries in tiers:
+        for (kind, name, entries), (tlo, thi) in zip(tiers, spans):
             E = ival.fentries(entries)
             try:
                 if kind == "I":
-                    exps.append(ival.insert_space_intervals(E, F(lo), F(hi), F(s0), F(d), mode))
+                    exps.append(ival.insert_space_intervals(E, F(tlo), F(thi), F(s0), F(d), mode))
                 else:
-                    exps.append(ival.insert_space_points(E, F(lo), F(hi), F(s0), F(d)))
+                    exps.append(ival.insert_space_points(E, F(tlo), F(thi), F(s0), F(d)))
             except ival.Collision:
                 rejected = True
         if rejected:
@@ -140,14 +146,14 @@ def _check_tg(case, exact):
         if msg is None:
             msg = ival.compare_num(r.minTimestamp, F(lo), exact, f"{tag} textgrid min") or \
                 ival.compare_num(r.maxTimestamp, F(hi) + F(d), exact, f"{tag} textgrid max")
-        if msg is None:
+        if msg is None and uniform:
             v = call(r.validate, "silence")
             if v[0] != "ok" or v[1] is not True:
                 msg = f"{tag}: validate() is not True on the result"
         if msg:
             viols.append(Viol("tg-insertSpace-result", msg + f"  [tiers {tiers}]"))
         summ.append(str(sum(len(x[0]) for x in exps)))
-    return n, "/".join(summ), (tuple(order_type(e, (s0,)) for _, _, e in tiers), d), viols
+    return n, "/".join(summ), (tuple(order_type(e, (s0,)) for _, _, e in tiers), d, uniform), viols
 
 
 def _snippet(case):
@@ -236,6 +242,17 @@ def parts(tier):
                     for s0 in D.half_grid(0, 4):
                         for d in (0.5, 2.0):
                             yield (tiers, 0.0, 4.0, s0, d)
+        # tiers whose own spans are narrower than the textgrid's, in both tier orders (s may lie beyond a short tier's end)
+        short_sets = D.interval_sets((0.0, 1.0, 2.0), 2)
+        for s1 in short_sets:
+            for s2 in tsets[::stride]:
+                for p in ((1.0,), (0.0, 3.0)):
+                    ta = ("I", "short", D.labelled(s1), (0.0, 2.0))
+                    tb = ("I", "long", D.labelled(s2, "x"))
+                    tp = ("P", "p", D.labelled_points(p), (0.0, 3.0))
+                    for order in ((ta, tb, tp), (tb, tp, ta), (tp, ta, tb)):
+                        for s0 in D.half_grid(0, 4):
+                            yield (order, 0.0, 4.0, s0, 1.0)
         dsets2 = D.interval_sets(D.DEC[:5], 2)
         for s1 in dsets2[::2]:
             for s2 in dsets2[::5]:
